@@ -41,7 +41,7 @@ CHECKS.update({
  "C12": ("5.12", "Obligation tracking per (node, height, view): union of RequestTx arguments vs OnTransaction supplies under the property's precondition, in simulations biased to differing mempools, invalid transactions, slow supply and cached next-view proposals (the nested case)."),
  "C13": ("5.13", "Broadcast / Block.Sign / PreBlock.SetData of observers, flagged validators and validators restarted in watch-only mode are violations at the instant they happen (scenarios place the flagged validator at the primary position at Start and after Resets, make proposals fail verification, let verification callbacks reject); plus a differential pair run: the same tape with the special node never started must give the other nodes identical canonical traces."),
  "C14": ("5.14", "Every tape is executed twice against clocks that differ by a constant offset (seconds to decades, both signs, on both sides of the machine's wall clock); canonical traces (timestamps relative to the epoch, hashes as ordinals, timer durations verbatim) must be identical."),
- "C08": ("5.8", "Fault-free synchronous simulations (all honest, latency <= delta << T, exact timers) in which the tape permutes and duplicates the deliveries of every round and delays one node's Reset by up to 1.5 T so that next-height traffic is cached: every validator decides every height in view 0 on the same block and nobody broadcasts a change-view or recovery request. One run in ten is a 'ref' family run: the same oracle on a cluster wired to the repository's own internal/consensus payloads, internal/crypto P-256 signatures and gob wire codec (every payload encoded at the sender, decoded at each recipient)."),
+ "C08": ("5.8", "Fault-free synchronous simulations (all honest, latency <= delta << T, exact timers) in which the tape permutes and duplicates the deliveries of every round and delays one node's Reset by up to 1.5 T so that next-height traffic is cached: every validator decides every height in view 0 on the same block and nobody broadcasts a change-view or recovery request. In a third of the runs without dynamic block time one node's pool misses most transactions (it has to request them; the application supplies within delta and, in half of the runs, forgets open requests when StopTxFlow is called). One run in ten is a 'ref' family run: the same oracle on a cluster wired to the repository's own internal/consensus payloads, internal/crypto P-256 signatures and gob wire codec (every payload encoded at the sender, decoded at each recipient)."),
  "C09": ("5.9", "Bounded liveness in GST simulations: <=F validators silent from the start (incl. the first primaries), arbitrary cut sets/instants/durations, amnesia restarts at arbitrary points (between calls, inside Broadcast, inside ProcessBlock); after faults stop every live validator must advance 3 heights within 400 T; with silence from the start on a synchronous network the deciding view is <= the number of silent validators; a budgeted faulty validator may also stop for good (crash-stop); step rules: a validator that holds nothing of its view takes the authentic proposal out of a recovery message of that view; a lagging validator given an honest validator's recovery message from a higher view ends the call in a higher view. Protocol-level known findings L1, L2, L3 (commit-lock stalls) and V1 (one wasted view), each with a scripted reproduction. One run in twelve is a 'ref' family run (reference payload/crypto/codec code, up to F validators silent from the start, synchrony from t=0, block sync: every live validator reaches the target height, all blocks equal)."),
  "C15": ("5.15", "Every proposal of an honest-code primary is compared with an expectation recomputed from the clock reading and pool content the library obtained in that very call, under clock skew, backward/forward clock steps, unaligned clocks and increments 1, 7, 1000, 1e6, 7e6, 1e9, 999999937 ns; the primary's own block must carry the same values."),
  "C16": ("5.16", "Fault-free synchronous simulations with the maximum-block-time extension at ratios 1, 1.5, 2, 3, 8 (and off), N=1..7, transaction arrival processes (never / before the minimum / inside the extended wait / bursts) re-armed at every decided height: proposal spacing judged on simulated send instants (tolerance 4*delta), prompt proposal inside the OnNewTransaction call (when the notified transaction has left every pool again by the time the library looks, a prompt empty proposal and going on waiting are both accepted), no proposal later than the maximum block time after the previous one, no change-view/recovery request from a node whose pool is empty, no subscription without the extension; fault kinds: a notified transaction evicted before the library looks, and a verified pool that is empty at a second read inside one library call."),
